@@ -26,6 +26,51 @@ def c04():
         return json.load(f)
 
 
+def cpu_update_cases(ctx, prog, eff, sp, maxn=3):
+    """cpu_update evaluated on every list of 0..maxn threads in every state, physical and virtual CPU.
+    Yields (tag, is_virtual, states, accepting outcomes, {channel index: value set}, running idx, active idx).
+    Thread i has tid 1000+i, gindex 10+i, process pid 2000+i.  (Shared with C06 R6.5.)"""
+    E = prog.enum_val
+    names = [e[0] for e in prog.enums["thread_state"]["enumerators"]]
+    cu = prog.fn("cpu_update", CPUC)
+
+    def s_val(ex, st, args, f, e):
+        return [(("val", "i64", args[0]), {})]
+
+    def s_null(ex, st, args, f, e):
+        return [(("val", "null"), {})]
+    for virt in (0, 1):
+        for n in range(0, maxn + 1):
+            for states in itertools.product(names, repeat=n):
+                store = {("CPU", F("cpu", "is_virtual")): INT(virt),
+                         ("CPU", F("cpu", "threads")): PTR("T0") if n else NULL}
+                for i, s in enumerate(states):
+                    t = "T%d" % i
+                    store[(t, F("thread", "state"))] = INT(E(s))
+                    store[(t, F("thread", "tid"))] = INT(1000 + i)
+                    store[(t, F("thread", "gindex"))] = INT(10 + i)
+                    store[(t, F("thread", "proc"))] = PTR("P%d" % i)
+                    store[("P%d" % i, F("proc", "pid"))] = INT(2000 + i)
+                    store[(t, F("thread", "cpu_next"))] = PTR("T%d" % (i + 1)) if i + 1 < n else NULL
+                sets = {}
+
+                def s_cs(ex, st, args, f, e, sets=sets):
+                    a = args[0]
+                    if a[0] == "ptr" and a[1] == "CPU" and a[2] and a[2][0] == ("cpu", "chan"):
+                        sets[a[2][1]] = args[1]
+                    return [(INT(0), {})]
+                ex = absint.Explorer(prog, effects=eff, loop_bound=maxn + 3, inline=lambda n_, d: d.file == CPUC and n_ != "cpu_update",
+                                     summaries={"chan_set": s_cs, "value_int64": s_val, "value_null": s_null})
+                outs = ex.run(cu, [PTR("CPU")], store)
+                rets = [o for o in outs if o.kind == "ret"]
+                ctx.need(rets and all(o.ret and o.ret[0] == "int" for o in rets), "cpu_update: cannot evaluate")
+                acc = [o for o in rets if o.ret[1] == 0]
+                run_idx = [i for i, s in enumerate(states) if s in sp["running"]]
+                act_idx = [i for i, s in enumerate(states) if s in sp["active"]]
+                tag = "%s:[%s]" % ("virtual" if virt else "physical", ",".join(s[6:] for s in states))
+                yield tag, virt, states, acc, sets, run_idx, act_idx
+
+
 def run(ctx):
     prog = ctx.prog
     sp = c04()
@@ -50,35 +95,9 @@ def run(ctx):
     CH = {n: E("CPU_CHAN_" + n) for n in ("NRUN", "PID", "TID", "THRUN", "THACT")}
 
     # ---- R5.2 / R5.4 -------------------------------------------------------------
-    for virt in (0, 1):
-        for n in range(0, 4):
-            for states in itertools.product(names, repeat=n):
-                store = {("CPU", F("cpu", "is_virtual")): INT(virt),
-                         ("CPU", F("cpu", "threads")): PTR("T0") if n else NULL}
-                for i, s in enumerate(states):
-                    t = "T%d" % i
-                    store[(t, F("thread", "state"))] = INT(E(s))
-                    store[(t, F("thread", "tid"))] = INT(1000 + i)
-                    store[(t, F("thread", "gindex"))] = INT(10 + i)
-                    store[(t, F("thread", "proc"))] = PTR("P%d" % i)
-                    store[("P%d" % i, F("proc", "pid"))] = INT(2000 + i)
-                    store[(t, F("thread", "cpu_next"))] = PTR("T%d" % (i + 1)) if i + 1 < n else NULL
-                sets = {}
-
-                def s_cs(ex, st, args, f, e, sets=sets):
-                    a = args[0]
-                    if a[0] == "ptr" and a[1] == "CPU" and a[2] and a[2][0] == ("cpu", "chan"):
-                        sets[a[2][1]] = args[1]
-                    return [(INT(0), {})]
-                ex = absint.Explorer(prog, effects=eff, loop_bound=6,
-                                     summaries={"chan_set": s_cs, "value_int64": s_val, "value_null": s_null})
-                outs = ex.run(cu, [PTR("CPU")], store)
-                rets = [o for o in outs if o.kind == "ret"]
-                ctx.need(rets and all(o.ret and o.ret[0] == "int" for o in rets), "cpu_update: cannot evaluate")
-                acc = [o for o in rets if o.ret[1] == 0]
-                run_idx = [i for i, s in enumerate(states) if s in sp["running"]]
-                act_idx = [i for i, s in enumerate(states) if s in sp["active"]]
-                tag = "%s:[%s]" % ("virtual" if virt else "physical", ",".join(s[6:] for s in states))
+    if True:
+        if True:
+            for (tag, virt, states, acc, sets, run_idx, act_idx) in cpu_update_cases(ctx, prog, eff, sp):
                 over = len(run_idx) > 1 and not virt
                 if over:
                     ctx.check(not acc, "R5.2", tag + ":oversubscribed", cu.loc(),
